@@ -643,10 +643,37 @@ func (vc *FnVC) applyCallGhostsX(name string, args, results []TV, m *Mem, extra 
 
 // blockResolver resolves source names at (the end of) a block.
 func (vc *FnVC) blockResolver(b *ssa.BasicBlock, m *Mem) func(string) (TV, bool) {
+	limit := vc.curIdx
 	return func(name string) (TV, bool) {
+		// a variable that lives in a cell (captured by a closure, or address-taken) denotes the cell's current content
+		for _, fv := range vc.fn.FreeVars {
+			if fv.Name() == name {
+				lv := vc.lvOf(fv)
+				return TV{t: vc.loadLV(lv, m), ty: lv.typ}, true
+			}
+		}
+		for _, blk := range vc.fn.Blocks {
+			for _, in := range blk.Instrs {
+				if a, ok := in.(*ssa.Alloc); ok && a.Comment == name && blk.Dominates(b) {
+					if _, defined := vc.vals[a]; !defined {
+						continue
+					}
+					if sv := vc.immutableCell(a); sv != nil {
+						if _, ok := vc.vals[sv]; ok || isConstOrParam(sv) {
+							return TV{t: vc.val(sv), ty: sv.Type()}, true
+						}
+					}
+					lv := vc.lvOf(a)
+					return TV{t: vc.loadLV(lv, m), ty: lv.typ}, true
+				}
+			}
+		}
 		for d := b; d != nil; d = d.Idom() {
 			binds := vc.debug[d]
 			for i := len(binds) - 1; i >= 0; i-- {
+				if d == b && binds[i].idx >= limit {
+					continue // only bindings before the current instruction are in effect
+				}
 				if binds[i].name == name {
 					if _, ok := vc.vals[binds[i].val]; ok || isConstOrParam(binds[i].val) {
 						return vc.debugTV(binds[i], m), true
